@@ -13,6 +13,7 @@ import (
 	"time"
 
 	"github.com/f1bonacc1/process-compose/src/types"
+	"github.com/gorilla/websocket"
 
 	"pcverif/fw"
 	"pcverif/sim"
@@ -132,6 +133,8 @@ func runRestRead(c fw.Case) fw.Result {
 		return de == nil
 	}
 	mutate := []string{"stop", "start", "restart", "scale", "none", "none"}
+	var prevProject *types.ProjectState
+	prevProjectCanon := ""
 	for step := 0; step < sp.Steps; step++ {
 		quiesce()
 		// --- compare every read operation
@@ -152,6 +155,12 @@ func runRestRead(c fw.Case) fw.Result {
 			}
 			d1, e1 := env.Runner.GetProcessState(n)
 			c1, e2 := cl.GetProcessState(n)
+			if (e1 != nil) != (e2 != nil) {
+				// a scale/update in flight may remove the name between the two calls
+				quiesce()
+				d1, e1 = env.Runner.GetProcessState(n)
+				c1, e2 = cl.GetProcessState(n)
+			}
 			if cmpErr("GetProcessState", n, e1, e2) && canon(normState(*d1)) != canon(normState(*c1)) {
 				d1, _ = env.Runner.GetProcessState(n)
 				c1, _ = cl.GetProcessState(n)
@@ -164,10 +173,23 @@ func runRestRead(c fw.Case) fw.Result {
 			if cmpErr("GetProcessInfo", n, e3, e4) && canonVia(d2) != canonVia(c2) {
 				r.Add("C19", "info-differs", "GetProcessInfo(%s): client %s, runner %s", n, canonVia(c2), canonVia(d2))
 			}
-			d3, e5 := env.Runner.GetProcessPorts(n)
-			c3, e6 := cl.GetProcessPorts(n)
-			if cmpErr("GetProcessPorts", n, e5, e6) && canonVia(d3) != canonVia(c3) {
-				r.Add("C19", "ports-differ", "GetProcessPorts(%s): client %s, runner %s", n, canonVia(c3), canonVia(d3))
+			// ports depend on "is it running right now": compare up to three times
+			for try := 0; try < 3; try++ {
+				d3, e5 := env.Runner.GetProcessPorts(n)
+				c3, e6 := cl.GetProcessPorts(n)
+				same := (e5 != nil) == (e6 != nil) && (e5 != nil || canonVia(d3) == canonVia(c3))
+				if same {
+					r.Count("read_ops_compared", 1)
+					break
+				}
+				if try == 2 {
+					if (e5 != nil) != (e6 != nil) {
+						r.Add("C19", "client-error-mismatch:GetProcessPorts", "GetProcessPorts(%q): direct call error=%v, client error=%v (three attempts)", n, e5, e6)
+					} else {
+						r.Add("C19", "ports-differ", "GetProcessPorts(%s): client %s, runner %s", n, canonVia(c3), canonVia(d3))
+					}
+				}
+				quiesce()
 			}
 			// raw log route vs direct
 			off, lim := rng.Intn(30)-2, rng.Intn(12)-2
@@ -188,10 +210,21 @@ func runRestRead(c fw.Case) fw.Result {
 				}
 			}
 		}
-		dp, e8 := env.Runner.GetProjectState(false)
-		cp, e9 := cl.GetProjectState(false)
-		if cmpErr("GetProjectState", "", e8, e9) && normProject(dp) != normProject(cp) {
-			r.Add("C19", "project-state-differs", "GetProjectState: client %s, runner %s", normProject(cp), normProject(dp))
+		withMem := step%2 == 1
+		dp, e8 := env.Runner.GetProjectState(withMem)
+		cp, e9 := cl.GetProjectState(withMem)
+		if cmpErr("GetProjectState", "", e8, e9) {
+			if normProject(dp) != normProject(cp) {
+				r.Add("C19", "project-state-differs", "GetProjectState: client %s, runner %s", normProject(cp), normProject(dp))
+			}
+			if (dp.MemoryState != nil) != (cp.MemoryState != nil) {
+				r.Add("C19", "project-state-memory", "GetProjectState(withMemory=%v): memory statistics present: runner %v, client %v", withMem, dp.MemoryState != nil, cp.MemoryState != nil)
+			}
+			// a value handed out earlier must not change under the caller
+			if prevProject != nil && canon(prevProject) != prevProjectCanon {
+				r.Add("C19", "client-result-mutated", "the project state returned by an earlier client call changed afterwards: %s -> %s", prevProjectCanon, canon(prevProject))
+			}
+			prevProject, prevProjectCanon = cp, canon(cp)
 		}
 		dh, _ := env.Runner.GetHostName()
 		ch, e10 := cl.GetHostName()
@@ -429,6 +462,78 @@ func isASCII(s string) bool {
 	return true
 }
 
+// runRestWsBroken: a log-stream client vanishes without a close handshake
+// while the server is still writing its backlog; afterwards the log stream of
+// another process must still be served and agree with the runner's log.
+func runRestWsBroken(c fw.Case) fw.Result {
+	r := fw.Result{NonTrivial: true}
+	rng := rand.New(rand.NewSource(c.Seed))
+	lines := 4000 + rng.Intn(4000)
+	spec := LifeSpec{BackoffUnitMs: 20, NoOutEvents: true, LogLength: 10000, SilenceMs: 5000,
+		Procs: []PSpec{
+			{Name: "big", RunMs: []int{-1}, Out: []sim.Chunk{{Stream: "o", N: lines, Len: 600}}},
+			{Name: "small", RunMs: []int{-1}, Out: []sim.Chunk{{Stream: "o", N: 3}}},
+		}}
+	w := sim.NewWorld(c.Seed)
+	w.NoOutEvents = true
+	sim.SetCurrent(w)
+	defer sim.Forget(w)
+	env, err := sim.NewEnv(w, BuildYAML(&spec, w.ID, 1), sim.EnvOpts{})
+	if err != nil {
+		r.Inconclusive = err.Error()
+		w.Close()
+		return r
+	}
+	defer env.Cleanup()
+	env.Start()
+	api := startAPI(env)
+	defer api.close()
+	// wait until the backlog is in the buffer
+	deadline := time.Now().Add(10 * time.Second)
+	for time.Now().Before(deadline) && env.Runner.GetProcessLogLength("big") < lines {
+		time.Sleep(5 * time.Millisecond)
+	}
+	for k := 0; k < 1+rng.Intn(3); k++ {
+		url := fmt.Sprintf("ws://%s:%d/process/logs/ws?name=big&offset=%d&follow=%v", api.host, api.port, lines, rng.Intn(2) == 0)
+		conn, _, err := websocket.DefaultDialer.Dial(url, nil)
+		if err != nil {
+			r.Inconclusive = "dial: " + err.Error()
+			return r
+		}
+		var m map[string]any
+		_ = conn.ReadJSON(&m)
+		_ = conn.UnderlyingConn().Close() // vanish without a close handshake
+	}
+	time.Sleep(50 * time.Millisecond)
+	want, _ := env.Runner.GetProcessLog("small", 10, 0)
+	var got wsCollector
+	lc := newLogClient(api)
+	done, err := lc.ReadProcessLogs("small", 10, false, got.add)
+	if err != nil {
+		r.Add("C19", "ws-not-served-after-broken-follower", "log stream request failed after a follower vanished: %v", err)
+	} else {
+		select {
+		case <-done:
+		case <-time.After(8 * time.Second):
+		}
+		if !eqStrs(got.snapshot(), want) {
+			r.Add("C19", "ws-not-served-after-broken-follower", "after %s vanished mid-backlog, the log stream of 'small' delivered %v, the runner has %v", "a follower of 'big'", trunc(got.snapshot()), trunc(want))
+		}
+	}
+	if st, _ := rawReq(api, "GET", "/live", ""); st != 200 {
+		r.Add("C19", "not-alive-after-broken-follower", "/live answered %d", st)
+	}
+	sd := make(chan struct{})
+	go func() { _ = env.Runner.ShutDownProject(); close(sd) }()
+	select {
+	case <-sd:
+	case <-time.After(20 * time.Second):
+		r.Dirty = true
+	}
+	r.Sig = sim.Hash(fmt.Sprint("wsbroken", c.Seed))
+	return r
+}
+
 func truncS(s string, n int) string {
 	if len(s) > n {
 		return s[:n] + "…"
@@ -450,6 +555,9 @@ func init() {
 			for i := 0; i < tierN(tier, 60, 600); i++ {
 				s := fw.SubSeed(seed, 10000+i)
 				cs = append(cs, fw.MkCase("C19", "hostile", s, raSpec{Steps: 120}))
+			}
+			for i := 0; i < tierN(tier, 6, 60); i++ {
+				cs = append(cs, fw.MkCase("C19", "ws-broken-follower", fw.SubSeed(seed, 15000+i), nil))
 			}
 			for i := 0; i < tierN(tier, 250, 4000); i++ {
 				s := fw.SubSeed(seed, 20000+i)
@@ -478,6 +586,8 @@ func init() {
 				return runRestRead(c)
 			case "hostile":
 				return runRestHostile(c)
+			case "ws-broken-follower":
+				return runRestWsBroken(c)
 			case "history-via-client":
 				r = runGraphCase(c, everyOracle, func(lr *LifeRun, ix *lifeIndex) bool { return true }, lifeSigKinds)
 			case "scale-via-client":
